@@ -5,16 +5,19 @@ import sys
 
 sys.path.insert(0, os.path.dirname(__file__))
 import gen_c14_layouts as _g14  # noqa: E402
+import gen_crdt_layouts as _g22  # noqa: E402
 
 ENGINES = {
     # in-crate harnesses of radicle-node (hook modules `verif_kani`, cfg(kani))
     "node": {"cwd": "$REPO", "pkg": ["-p", "radicle-node", "--lib"], "slots": 4},
     # external harness crates: path dependencies on /repo/crates/*, public API only
+    # shadow crates: regenerated from /repo's sources on every run (bin/shadowgen.py)
+    "shadow_crdt": {"cwd": "$CACHE/shadow/crdt", "pkg": [], "slots": 4, "prepare": "prepare_crdt"},
     "ext_c27": {"cwd": "$VERIF/harness/ext/c27", "pkg": [], "slots": 3, "copy_lock": True},
 }
-SETUP_ENGINES = ["node", "ext_c27"]
+SETUP_ENGINES = ["node", "ext_c27", "shadow_crdt"]
 # replay include files that exist in harness sources of an engine but belong to no registered harness (yet)
-EXTRA_REPLAY_FILES = {"node": ["wire_c13", "wire_c14", "service_c29", "limiter"]}
+EXTRA_REPLAY_FILES = {"shadow_crdt": ["shadow_crdt"], "ext_c27": ["ext_c27"], "node": ["wire_c13", "wire_c14", "service_c29", "limiter"]}
 
 Q = ["quick", "thorough"]
 T = ["thorough"]
@@ -190,4 +193,40 @@ PROPERTIES["C27"] = {
     "harnesses": _c27h,
     "outside": ["agent responses longer than 32 bytes (apart from the well-formed 88-byte sign response)", "identities answers with a symbolic key count beyond 9 bytes (count fixed to 1, 2 or u32::MAX per layout)", "SecretKey encoding (add_identity) and the Unix-socket ClientStream implementation"],
     "assumptions": ["Kani/CBMC model of std"],
+}
+
+# ---------------------------------------------------------------------------------------------
+# C22
+
+_M22 = "verif_kani"
+_S22 = ["K-shadow: radicle-crdt/src/*.rs copied verbatim, only `use std::collections::...` lines rewritten to `crate::vcoll::...` (4-slot field-backed sorted map with BTreeMap semantics, differentially checked against std in c22_vcoll_matches_std_btreemap)"]
+_c22h = []
+for _n in ["max", "min", "bool", "option_max", "redactable", "lwwreg_max", "lwwreg_option"]:
+    _c22h.append(H(f"c22_scalar_{_n}", "shadow_crdt", _M22, "shadow_crdt", tiers=Q, covers=1, stubs=[],
+        functions=["Semilattice::{merge,join} for Max/Min/bool/Option/Redactable/LWWReg", "LWWReg::{new,set}"],
+        bounds=f"three fully symbolic operands of type {_n} over u8 values and u8 clocks: associativity, commutativity, idempotence"))
+_c22h.append(H("c22_lwwreg_set_greatest_clock", "shadow_crdt", _M22, "shadow_crdt", tiers=Q, covers=1, stubs=[], functions=["LWWReg::{new,set,get,clock}"],
+    bounds="two writes with symbolic u8 clocks and values: value of the greatest clock, equal clocks merge, clock = max"))
+for _n in ["c22_lwwmap_greatest_clock_wins", "c22_lwwset_insert_wins_at_equal_clock"]:
+    _c22h.append(H(_n, "shadow_crdt", _M22, "shadow_crdt", tiers=Q, covers=2 if "lwwmap" in _n else 1, stubs=_S22,
+        functions=["LWWMap::{insert,remove,get,contains_key}", "LWWSet::{insert,remove,contains}", "GMap::insert", "Semilattice::merge for LWWMap/LWWSet/GMap"],
+        bounds="two writes (insert or remove, symbolic) to one key with symbolic u8 clocks and values, applied sequentially and via merge of two replicas"))
+_c22h.append(H("c22_vcoll_matches_std_btreemap", "shadow_crdt", _M22, "shadow_crdt", tiers=Q, covers=2, stubs=[], functions=["vcoll::BTreeMap vs std::collections::BTreeMap"],
+    bounds="two inserts over a 2-key universe, symbolic values: insert results, len, get, first_key_value agree"))
+for _k in _g22.LWW + _g22.GROW:
+    for _l in _g22.layouts(_k):
+        _c22h.append(H(_g22.name(_k, _l), "shadow_crdt", _M22, "shadow_crdt", tiers=Q, covers=1, stubs=_S22, rotate=False,
+            functions=[f"Semilattice::merge for {_k}", "GMap::insert", "LWWReg::set"],
+            bounds=f"{_k}: three single-key operands, operation kind per operand concrete (layout {_l}: 0 absent, 1 insert, 2 remove), u8 clocks and values symbolic: associativity, commutativity, idempotence"))
+for _l in _g22.pointwise_layouts():
+    _c22h.append(H(_g22.pname(_l), "shadow_crdt", _M22, "shadow_crdt", tiers=Q, covers=1, stubs=_S22, rotate=True, timeout={"quick": 600, "thorough": 1800},
+        functions=["Semilattice::merge for LWWMap/GMap", "LWWMap::{insert,remove,get,contains_key}"],
+        bounds=f"frame property: two 2-key LWWMap operands (operation kinds per key concrete: base-3 codes {_l[0]}, {_l[1]}), symbolic clocks/values; the merged map agrees at key {_l[2]} with the merge of the single-key restrictions"))
+PROPERTIES["C22"] = {
+    "harnesses": _c22h,
+    "quick_rotate": 6,
+    "outside": ["associativity checked directly on maps with 2+ keys (exhausts 25 GB); concluded from the single-key laws + the pointwise frame property",
+                "keys beyond {0,1}, clocks/values wider than u8, GMap/GSet/LWWSet frame property (same GMap::merge code path as LWWMap)",
+                "Immutable (merge panics by design), Lamport/Physical clocks as values"],
+    "assumptions": ["the vcoll containers behave like std's BTreeMap on the API subset used (differential harness at size <= 2)", "laws for multi-key maps follow from single-key laws + pointwise merging (paper argument)"],
 }
